@@ -1,6 +1,5 @@
 import Ldlm.Proofs.ClientAlive
 import Ldlm.Proofs.ClientConc
-import Ldlm.Props.Pins
 /-!
 C19 — Go client: auto-renew keeps holds alive, stops at Unlock, handles many holds.
 
